@@ -190,7 +190,9 @@ impl<
         if buf.is_empty() {
             Ok(0)
         } else {
-            self.read(buf)
+            // `self.read(buf)` would resolve to this trait method again (the
+            // inherent method takes `&self`), so name the inherent one.
+            Self::read(self, buf)
         }
     }
 }
@@ -207,7 +209,8 @@ impl<
         if buf.is_empty() {
             Ok(0)
         } else {
-            self.write(buf)?;
+            // as above: call the inherent `write`, not this trait method
+            Self::write(self, buf)?;
             Ok(buf.len())
         }
     }
